@@ -273,10 +273,18 @@ pub fn run(out: &RunOut, p: &str, tol: u128) -> MonOut {
             } else if !any_failed {
                 if let (Some(fw), Some((_, fs, certain))) = (finish_wall_read, first_seen.clone()) {
                     if certain && li == 0 || certain {
-                        let fs = if first_seen_from_storage { (fs / 1000) * 1000 } else { fs };
-                        if !super::common::fits_i64_us(fs) {
-                            // not storable: not judged
-                        } else if fw >= fs {
+                        // a first-seen time read back from storage has microsecond precision; one that
+                        // could not be stored (outside the i64 microsecond range) is absent there, and
+                        // the attempt then counts from its own start
+                        let fs = if !first_seen_from_storage {
+                            fs
+                        } else if super::common::fits_i64_us(fs) {
+                            (fs / 1000) * 1000
+                        } else {
+                            m.count("R1.first_seen_time_not_storable");
+                            start_wall_read.unwrap_or(fs)
+                        };
+                        if fw >= fs {
                             m.count("R1.first_seen_durations");
                             let want = (fw - fs) as u128;
                             match fs_metric.as_slice() {
@@ -337,9 +345,11 @@ pub fn run(out: &RunOut, p: &str, tol: u128) -> MonOut {
             if !any_failed {
                 if let Some(fw) = finish_wall_read {
                     if !super::common::fits_i64_us(fw) {
-                        // the finish time cannot be stored: no record, nothing to report later
+                        // the finish time cannot be stored: the key is removed, so there is no record
+                        // and nothing to report later (unknown only if the attempt was cut before its commit)
                         pending = None;
-                        pending_unknown = true;
+                        pending_unknown = !reboot_q;
+                        m.count("R3.finish_time_not_storable");
                     } else if let Some(t) = sys_target.clone() {
                         if reboot_q {
                             pending = Some(Pending { finish_wall: fw, target: t.or(Some("UNKNOWN".into())), life: l.life, uncertain: false, reports: 0 });
